@@ -49,3 +49,13 @@ claim("C12", "other", "copy-on-write check of the collection map, hand-over shap
       "Decides: the collection map is never modified in place or after publication (M1); GetCollectionNames is sorted on every return (M2); an existing name hands its version to the new handle by a pinned reference under the same lock, old handles are closed only after a successful swap (M3); closing cannot recycle shared nodes (F3, found D3); management functions reach no file sink, so durability comes only from Flush, which pins the names of one map snapshot in sorted order (M5/FL1). Name-set bookkeeping across flush/reopen histories is not decided.",
       "Trusted: go/ssa.",
       "DESIGN.md §4 C12")
+
+claim("C02", "other", "must-pass-through / ordering rules over the SSA of the write path, role resolution from sinks, version-agreement provenance",
+      "Decides the commit protocol structurally: Flush reports success only through the single root-record write, which follows all data writes; items before nodes, children before parents, nothing skipped, both passes skip alike; the root record lists exactly the versions that were pinned and written; every iteration writes; size/location bookkeeping agrees with what was written; errors on the write path propagate (E1w) and pins are taken in sorted order before writing (FL1). These are necessary conditions of 'a nil Flush makes the whole state durable' for all histories; equality of re-opened with flushed contents additionally needs C14 (codec symmetry) and C13 (tree invariants) and is not decided here.",
+      "Trusted: go/ssa; roles resolved structurally (sinks, magic constants, recursion).",
+      "DESIGN.md §4 C02")
+
+claim("C03", "other", "single-commit-point and write-order rules + reader/writer validation-atom agreement (guard polarity analysis)",
+      "Decides the structural part of crash atomicity: one straight-line root-record write of a fully assembled buffer as the only commit point, after all data in dependency order; Store.size advanced only on success and to offset+length, with the recorded location equal to (write offset, advance length); and on open nine validation atoms (both magics twice, version, length agreement, offset bounds, A9 record-ends-at-cursor) each of whose failing arm leads only to rejection or re-test. Byte-granular torn writes and junk imitating a complete self-consistent record are not decided.",
+      "Trusted: go/ssa; the atom recognisers match operand provenance (MagicBeg/MagicEnd globals, binary.Read targets, Store.size loads, rootsLen), not text.",
+      "DESIGN.md §4 C03")
